@@ -5467,6 +5467,15 @@ class Arc(Curve):
         sinr = sin(radians(rotation))
         dx = (start.real - end.real) / 2
         dy = (start.imag - end.imag) / 2
+        # Work in units of a power of two near the largest length (an exact rescaling), so that the
+        # squares below neither overflow nor underflow for very large or very small arcs.
+        unit = 2.0 ** ceil(log(max(abs(dx), abs(dy), rx, ry), 2))
+        if unit == 0 or unit != unit or unit == float("inf"):
+            unit = 1.0
+        dx /= unit
+        dy /= unit
+        rx /= unit
+        ry /= unit
         x1prim = cosr * dx + sinr * dy
         x1prim_sq = x1prim * x1prim
         y1prim = -sinr * dx + cosr * dy
@@ -5493,14 +5502,16 @@ class Arc(Curve):
         cyprim = -c * ry * x1prim / rx
 
         center = Point(
-            (cosr * cxprim - sinr * cyprim) + ((start.real + end.real) / 2),
-            (sinr * cxprim + cosr * cyprim) + ((start.imag + end.imag) / 2),
+            (cosr * cxprim - sinr * cyprim) * unit + ((start.real + end.real) / 2),
+            (sinr * cxprim + cosr * cyprim) * unit + ((start.imag + end.imag) / 2),
         )
 
         ux = (x1prim - cxprim) / rx
         uy = (y1prim - cyprim) / ry
         vx = (-x1prim - cxprim) / rx
         vy = (-y1prim - cyprim) / ry
+        rx *= unit
+        ry *= unit
         n = sqrt(ux * ux + uy * uy)
         p = ux
         # theta = degrees(acos(p / n))
